@@ -489,13 +489,24 @@ fn demod_case(cx: &mut Ctxt, rng: &mut Rng) {
     let gain = 0.2 + rng.f32_unit().abs() * 3.0;
     let tone = rng.chance(1, 2);
     let f = rng.f32_unit() * 0.45; // cycles per sample
-    let data: Vec<C32> = if tone {
+    let mut data: Vec<C32> = if tone {
         (0..n).map(|i| C32::from_polar(0.5 + 0.3 * ((i % 7) as f32 / 7.0), 2.0 * std::f32::consts::PI * f * i as f32)).collect()
     } else {
         gen_c32(rng, n)
     };
+    // Gaps of exact zeroes (squelched bursts, zero padding): arg(0) is 0 by the
+    // definition the block uses, and the sample after a gap is compared with
+    // the zero before it, not with the last sample of the previous burst.
+    let gaps = if !tone && n > 4 && rng.chance(1, 2) { rng.range(1, 3) } else { 0 };
+    for _ in 0..gaps {
+        let at = rng.below(n);
+        let len = rng.range(1, 20);
+        for x in data.iter_mut().skip(at).take(len) {
+            *x = C32::new(0.0, 0.0);
+        }
+    }
     let seed = rng.next();
-    let replay = json!({"part": "demod", "n": n, "gain": gain, "tone": tone, "f": f, "seed": seed.to_string()});
+    let replay = json!({"part": "demod", "n": n, "gain": gain, "tone": tone, "f": f, "zero_gaps": gaps, "seed": seed.to_string()});
     match run_both::<C32, f32>(&data, 4096, seed, &move |r| {
         let (b, o) = QuadratureDemod::new(r, gain);
         (Box::new(b), o)
@@ -512,7 +523,13 @@ fn demod_case(cx: &mut Ctxt, rng: &mut Rng) {
                 last = s;
                 let want = gain as f64 * (t.im as f64).atan2(t.re as f64);
                 // product rounding: relative 4u on each component, atan2 few ulps
-                let tol = 1e-5 * gain as f64 + 64.0 * U * want.abs() + if t.norm_sqr() < 1e-12 { 4.0 } else { 0.0 };
+                // An exactly zero product has an exact answer (atan2 of signed zeroes);
+                // only a product in the denormal range has no meaningful angle.
+                let n2 = t.norm_sqr();
+                let tol = 1e-5 * gain as f64 + 64.0 * U * want.abs() + if n2 > 0.0 && n2 < 1e-30 { 4.0 * gain as f64 } else { 0.0 };
+                if n2 == 0.0 {
+                    cx.rep.count("demod_samples_after_or_in_a_zero_gap", 1);
+                }
                 if !((*y as f64 - want).abs() <= tol) {
                     return cx.fail("C11|QuadratureDemod|identity", format!("output {i}: {y} vs gain*arg(s*conj(s_prev)) = {want}"), replay);
                 }
